@@ -230,6 +230,12 @@ func (e *kvElection) Start(ctx context.Context) error {
 		if err := e.attemptAcquire(); err != nil {
 			e.recordAcquireAttempt("failed")
 			e.recordFailure(classifyErrorType(err))
+			// An acquisition still in flight from before a restart may have won
+			// in the meantime; failing here only means "stay follower" and must
+			// never demote a leader (no OnDemote would be invoked for it).
+			if e.IsLeader() {
+				return
+			}
 			e.becomeFollower()
 		}
 	}()
